@@ -60,7 +60,7 @@ def run_server_case(case, watchdog):
     SERVER_SCRIPT = AUTH_SCRIPTS[case['auth']] if case.get('auth') else globals()['SERVER_SCRIPT']
     edge = SmtpEdge(None, queue, hostname='edge', command_timeout=CMD_T * (4 if tls else 1), data_timeout=DATA_T * (4 if tls else 1),
                     context=server_ctx() if tls else None, tls_immediately=bool(tls),
-                    auth=([b'PLAIN', b'LOGIN'] if case.get('auth') else False))
+                    auth=([b'PLAIN', b'LOGIN'] if case.get('auth') else False), max_size=case.get('max_size'))
     a, b = gsocket.socketpair()
     done = AsyncResult()
 
@@ -277,6 +277,10 @@ def server_cases():
             yield {'family': 'server', 'after': after, 'mode': mode}
             if mode == 'silent' and after in (0, 2, 4):
                 yield {'family': 'server', 'after': after, 'mode': mode, 'tls': True}
+            if after in (4, 5) and mode != 'pipelined-partial':
+                # SIZE limit configured and exceeded inside DATA (by the content already sent, or by the trickle): the rest
+                # of an oversized message is skipped under the same data timeout
+                yield {'family': 'server', 'after': after, 'mode': mode, 'max_size': 20}
     for auth, script in sorted(AUTH_SCRIPTS.items()):
         for after in range(2, len(script)):
             for mode in ('silent', 'midline', 'trickle'):
